@@ -14,6 +14,8 @@ import Driver.UnifiedProto
 import Driver.SemiProto
 import Driver.HangProto
 import Driver.FieldProto
+import Driver.EndProto
+import Driver.PunctProto
 import Driver.ConfigProto
 import Driver.SelectProto
 import Driver.TypeProto
@@ -104,6 +106,8 @@ def handle (line : String) : String :=
   | ["semi", eol, req, wr, t, sl, st] => Driver.SemiProto.handle eol req wr t sl st
   | ["hangop", eol, ind, op, a, b, c] => Driver.HangProto.handle eol ind op a b c
   | ["fieldkey", eol, ind, kind, a, b, c, d] => Driver.FieldProto.handle eol ind kind a b c d
+  | ["endtoken", eol, ind, a] => Driver.EndProto.handle eol ind a
+  | ["punct", eol, ind0, ind, vt, pl, pt, nl] => Driver.PunctProto.handle eol ind0 ind vt pl pt nl
   | ["config", req] => Driver.ConfigProto.handle req
   | ["stdin", check, respect, ignored, parses, same] =>
       -- abstract run: the formatter is a parameter (parses? formatted = input?)
